@@ -308,7 +308,7 @@ pub fn explore(cfg: &Cfg, max_states: usize, revisit_cap: u8, aspects: i64, loca
 			let arrivals = seen.entry(a2.clone()).or_insert(0);
 			let execute = new || *arrivals < revisit_cap;
 			if !new {
-				*arrivals += 1;
+				*arrivals = arrivals.saturating_add(1);
 			}
 			if execute {
 				if !new {
